@@ -180,9 +180,10 @@ inductive TxErr (μ : Type) where
   | invalidResult (cost : ExBudget)
   deriving Repr
 
-/-- which success criterion `do_eval_redeemer` applies:
-`legacy` = tree without the proposed fix (only machine errors fail),
-`fixed` = with `proposed_fixes/C19-v3-nonunit.diff` (`eval_result.failed(false, lang)`) -/
+/-- the two places where the unpatched tree departs from the property; each is a switch
+`legacy` (tree without the proposed fix) / `fixed` (with it).
+As success criterion of `do_eval_redeemer`: `legacy` = only machine errors fail,
+`fixed` = `proposed_fixes/C19-v3-nonunit.diff` (`eval_result.failed(false, lang)`). -/
 inductive Criterion where | legacy | fixed
   deriving DecidableEq, Repr
 
@@ -218,7 +219,7 @@ structure Stages (ρ σ δ κ π μ : Type) where
 
 /-- `eval_redeemer_with_optional_protocol` (argument evaluation order of the Rust call:
 cost model, tx info, program; then `do_eval_redeemer`) -/
-def evalRedeemer {ρ σ δ κ π μ : Type} (crit : Criterion) (s : Stages ρ σ δ κ π μ)
+def evalRedeemer {ρ σ δ κ π μ : Type} (critJudge critBudget : Criterion) (s : Stages ρ σ δ κ π μ)
     (r : ρ) (remaining : ExBudget) : Except (TxErr μ) ExBudget :=
   match s.findScript r with
   | .error e => .error e
@@ -233,8 +234,8 @@ def evalRedeemer {ρ σ δ κ π μ : Type} (crit : Criterion) (s : Stages ρ σ
         | .error e => .error e
         | .ok prog =>
           let args := selectArgs lang.ctxVersion datum.isSome
-          judge crit lang
-            (s.run lang cm prog args datum r ctx (machineBudget crit cm.isSome remaining))
+          judge critJudge lang
+            (s.run lang cm prog args datum r ctx (machineBudget critBudget cm.isSome remaining))
 
 /-! ## lookup tables -/
 
